@@ -930,7 +930,7 @@ func (c *ftCtx) flatTable() *ftTable {
 		c.fail(sw, "%s: the switch is not the last statement of the function", fn)
 	}
 	// its caller hands it originalType and one value per metric
-	c.wantCallSrc("iterator_sample.go", "restoreFlat(m.originalType, m.Key(), m.Values[i])")
+	c.wantCallShape("iterator_sample.go", "restoreFlat", []string{".originalType", "", ".Values["})
 	t := &ftTable{coqName: "flat", comment: rel + " " + fn + " (called per metric with m.originalType by streamFlattenedDocuments)", armType: "carm"}
 	c.clauses(fn, sw, t, "", func(cl *ast.CaseClause, labels [][2]interface{}) []string {
 		rets := c.armReturns(fn, cl.Body, true)
@@ -987,6 +987,31 @@ func (c *ftCtx) wantCallSrc(rel, want string) {
 	})
 	if !found {
 		panic(ftErr{fmt.Sprintf("%s: the call `%s` was not found", rel, want)})
+	}
+}
+
+// wantCallShape: some call of fn in the file has len(parts) arguments, and argument i contains parts[i] (the key
+// argument of restoreFlat is left open: whether it is computed per sample or once per chunk is not a fact used here)
+func (c *ftCtx) wantCallShape(rel, fn string, parts []string) {
+	found := false
+	ast.Inspect(c.file(rel), func(n ast.Node) bool {
+		call, ok := n.(*ast.CallExpr)
+		if !ok || c.src(call.Fun) != fn || len(call.Args) != len(parts) {
+			return true
+		}
+		all := true
+		for i, a := range call.Args {
+			if !strings.Contains(c.src(a), parts[i]) {
+				all = false
+			}
+		}
+		if all {
+			found = true
+		}
+		return true
+	})
+	if !found {
+		panic(ftErr{fmt.Sprintf("%s: no call of %s with arguments of the shape %q was found", rel, fn, parts)})
 	}
 }
 
@@ -1930,7 +1955,7 @@ func ftCapsV(c *ftCtx) []byte {
 
 // ---------------------------------------------------------------- driver
 
-func ftGenerate(repo string) (out map[string][]byte, err error) {
+func ftGenerate(repo string, families []string) (out map[string][]byte, err error) {
 	defer func() {
 		if r := recover(); r != nil {
 			if fe, ok := r.(ftErr); ok {
@@ -1947,26 +1972,37 @@ func ftGenerate(repo string) (out map[string][]byte, err error) {
 	}
 	c := &ftCtx{repo: abs, fset: token.NewFileSet(), files: map[string]*ast.File{}}
 	out = map[string][]byte{}
-	out["TypeTables.v"] = ftTypeTablesV(c)
-	out["PerfKeys.v"] = ftPerfKeysV(c)
-	out["Caps.v"] = ftCapsV(c)
+	gens := map[string]func(*ftCtx) []byte{"TypeTables.v": ftTypeTablesV, "PerfKeys.v": ftPerfKeysV, "Caps.v": ftCapsV}
+	for _, name := range families {
+		g, ok := gens[name]
+		if !ok {
+			return nil, fmt.Errorf("unknown fact family %s", name)
+		}
+		out[name] = g(c)
+	}
 	return out, nil
 }
 
 func init() {
 	commands["facts"] = func(args []string) error {
-		if len(args) != 2 {
-			return fmt.Errorf("usage: facts <repo-dir> <out-dir>")
+		if len(args) < 2 {
+			return fmt.Errorf("usage: facts <repo-dir> <out-dir> [TypeTables.v] [PerfKeys.v] [Caps.v]")
 		}
-		// all three files are computed before anything is written: a failure leaves no partial output
-		files, err := ftGenerate(args[0])
+		// the families are independent of each other: a check asks for the ones its obligations read, so that a
+		// source change one family no longer understands does not take the others down with it
+		families := args[2:]
+		if len(families) == 0 {
+			families = []string{"TypeTables.v", "PerfKeys.v", "Caps.v"}
+		}
+		// all requested files are computed before anything is written: a failure leaves no partial output
+		files, err := ftGenerate(args[0], families)
 		if err != nil {
 			return err
 		}
 		if err := os.MkdirAll(args[1], 0o755); err != nil {
 			return err
 		}
-		for _, name := range []string{"TypeTables.v", "PerfKeys.v", "Caps.v"} {
+		for _, name := range families {
 			p := filepath.Join(args[1], name)
 			old, rerr := os.ReadFile(p)
 			if rerr == nil && bytes.Equal(old, files[name]) {
